@@ -499,6 +499,12 @@ def run(prog, rep, tier):
             rep.violation(R56, key_.split("|", 1)[1], what_)
     for s_ in _sub.rules.get("R11.2", {}).get("samples", []):
         rep.examined(R56, str(s_)[:70], sample=s_)
+    R57 = rep.rule("R5.7", "a streamed year-less log keeps its blocks for the backward year walk on every accepting path (lifted from C11 R11.3)")
+    for (rid_, key_, what_, det_) in _sub.violations:
+        if rid_ == "R11.3":
+            rep.violation(R57, key_.split("|", 1)[1], what_)
+    for k_ in sorted(_sub.rules.get("R11.3", {}).get("keys", ())):
+        rep.examined(R57, k_, sample={"rule": "R11.3", "instance": k_})
 
     # ------------------------------------------------------------ R5.3
     sites = [("s4lib::readers::evtxreader::EvtxReader::new", ("OpenOptions::open", "from_path")),
